@@ -96,3 +96,16 @@ Example C07_run_example : forall u sort_opt,
   In RunExample.live (run_entries s sort_opt 1 RunExample.snap RunExample.es) /\
   ~ In (fst RunExample.live) (cr_obsolete_tests (snd (clean_run s sort_opt 1))).
 Proof. intros u so. destruct (RunExample.theorems_apply u so) as [_ [H1 [H2 _]]]. split; assumption. Qed.
+
+(* non-vacuity: every theorem of this file that has hypotheses has a concrete, non-trivial instance meeting ALL of them
+   (lemmas <Theorem>_witness / <Theorem>_applied in Proofs/WitnessesP.v); a representative one is restated here *)
+From Snaps Require Import Proofs.WitnessesP.
+Example C07_witnesses :
+  forall c u,
+  NoDup (map fst (s_fs (w07_st c u))) /\
+  In w07_snap (fr_used (run_files (w07_st c u) 2)) /\
+  alookup w07_snap (s_fs (w07_st c u)) = Some (render (map to_entry w07_es)) /\
+  Forall centry_ok w07_es /\ NoDup (map fst w07_es) /\
+  0 < 2 /\ 1 <= 2 <= 2 /\ alookup2 (w07_snap, w07_tA) (s_cleanup (w07_st c u)) = Some (2 * 2) /\
+  In w07_a2 w07_es /\ fst w07_a2 = snapshot_occ_fmt w07_tA 2.
+Proof. exact C07_witnesses_all. Qed.
